@@ -226,6 +226,12 @@ func jobC11(c *rt.Ctx) {
 		h := sha512.Sum512([]byte{0x50, byte(i)})
 		pts = append(pts, h[:32])
 	}
+	// points that put a limb of the first ladder step's E = AA - BB at a wrap point of the constant a24
+	// (see c11step.go)
+	fsp, fspTargets := firstStepPoints(c.Thorough())
+	pts = append(pts, fsp...)
+	c.Extra("first_step_points", int64(len(fsp)))
+	c.Extra("first_step_targets_tried", int64(fspTargets))
 	scal := [][]byte{le32(big.NewInt(8)), le32(badd(pow2(255), -1)), nil, nil}
 	h1 := sha512.Sum512([]byte("c11-scalar-1"))
 	h2 := sha512.Sum512([]byte("c11-scalar-2"))
@@ -802,6 +808,60 @@ func c12Strings(c *rt.Ctx, prop string) {
 	for _, d := range []int64{-1, -2, 0, 1, 2} {
 		for s := 0; s < 2; s++ {
 			b := ref.ToLE(badd(ref.P, d), 32)
+			b[31] |= byte(s) << 7
+			strs = append(strs, b)
+		}
+	}
+	// keys constructed for a chosen RESULT u: y = (u - 1)/(u + 1). Results with one non-zero byte per
+	// position, u = k and p - k, 2^k and its neighbours, and all-ones strings with one "hole" byte (the
+	// shapes a final reduction / canonical-form step of the result distinguishes)
+	var targets []*big.Int
+	for k := int64(0); k < 64; k++ {
+		targets = append(targets, big.NewInt(k), badd(ref.P, -k))
+	}
+	for pos := 0; pos < 32; pos++ {
+		for v := 1; v < 256; v++ {
+			if !c.Thorough() && v > 3 && v < 0x7e && v%16 != 0 {
+				continue
+			}
+			targets = append(targets, new(big.Int).Lsh(big.NewInt(int64(v)), uint(8*pos)))
+		}
+	}
+	for k := uint(1); k < 255; k++ {
+		targets = append(targets, badd(pow2(k), -1), pow2(k), badd(pow2(k), 1))
+	}
+	for _, b0 := range []byte{0x00, 0xec, 0xed, 0xee, 0xff} {
+		for q := 1; q <= 31; q++ {
+			for v := 0; v < 256; v++ {
+				if !c.Thorough() && v > 2 && v < 0xfd && v != 0x7f && v != 0x80 {
+					continue
+				}
+				b := bytes.Repeat([]byte{0xff}, 32)
+				b[0], b[31] = b0, 0x7f
+				if q == 31 {
+					b[q] = byte(v) & 0x7f
+				} else {
+					b[q] = byte(v)
+				}
+				targets = append(targets, ref.LE(b))
+			}
+		}
+	}
+	one := big.NewInt(1)
+	for _, u := range targets {
+		if u.Cmp(ref.P) >= 0 {
+			continue
+		}
+		den := new(big.Int).Add(u, one)
+		den.Mod(den, ref.P)
+		if den.Sign() == 0 {
+			continue
+		}
+		y := new(big.Int).Sub(u, one)
+		y.Mul(y, den.ModInverse(den, ref.P))
+		y.Mod(y, ref.P)
+		for s := 0; s < 2; s++ {
+			b := ref.ToLE(y, 32)
 			b[31] |= byte(s) << 7
 			strs = append(strs, b)
 		}
